@@ -20,6 +20,22 @@ CHECKS = {
          "bounded-exhaustive enumeration of shapes x fills on the real fold, against the multi-index definition",
          "All 2 800 shapes with 1..4 axes and lengths 1..7 x fill in {nan,0,-1,inf}: every cell compared (bitwise, NaN-aware) with the definition on multi-indices, mass and idempotence with fill 0, fold(mirror x)==fold(x); bit-label spectra on the 814 shapes with <=52 cells, integer labelings and two special-value fillings (NaN, +-inf, -0, subnormal, huge) elsewhere; `sfs fold --fill` at L2. Folding is linear away from the fill cells, so label spectra decide it for all value vectors on those shapes.",
          TRUST + "Shapes with >4 axes or lengths >7 are outside the bound.", "3 C05"),
+ "C07": ("exploration",
+         "bounded-exhaustive enumeration of shapes x special values x precisions x formats on the real writer/reader, and of the complete producer x format x sink x consumer matrix on the real binary",
+         "All 1 049 shapes with 1..6 axes, lengths 1..4 and <=24 cells filled from a 16-value special alphabet (+-0, subnormal, huge, NaN incl. a signalling payload, +-inf, 1/3) x precision 0..17 x {text, npy}: io::write::Builder bytes read back by Array::read_npy and the auto-detecting io::read::Builder (npy bit-identical, text within half a unit of the p-th decimal); every special value alone at every precision. At L2 the complete matrix producer{create,view,fold} x format x sink{stdout, -o fresh file, -o over a longer existing file} x consumer{view,fold,stat} x 6 spectra, and text->npy->text token identity for all 3-digit mantissas x 13 exponents x 4 precisions.",
+         TRUST + "'All f64 values' is replaced by the special-value alphabet and all 3-digit mantissas; a printing defect for one specific other mantissa is outside the bound. The text oracle allows half an ulp for the decimal->binary rounding on reading.", "3 C07"),
+ "C15": ("exploration",
+         "exhaustive enumeration of header-length residues / shapes for the writer and of the dtype x byte-order x version x spelling matrix for the reader, judged by a strict NEP-1 parser and a numpy-written corpus",
+         "Writer: Array::write_npy and `sfs view -O npy` for a shape family that hits every header length modulo 64 (measured: 64/64 residues) plus all 340 small shapes, each file checked field by field by a strict NPY 1.0 parser written from the specification (magic, version, LE length, 64-byte alignment, newline, ASCII, exact dict, LE doubles, no trailing bytes). Reader: 10 dtypes x byte orders x 3 versions x 1 200 header spellings (thorough 3 888) x 1-D/2-D with boundary values of every type, expected float64 bits computed from the decimal meaning; the committed corpus of 120 files written by numpy 2.4.6 compared with numpy's own astype('<f8') bytes, also end-to-end through the binary; Fortran order, unsupported dtypes, missing keys, bad magic/version must be rejected.",
+         TRUST + "numpy corpus generated once by tools/gen_numpy_corpus.py (numpy 2.4.6). '|' is exercised only for 1-byte dtypes; 0-dimensional arrays are outside the alphabet.", "3 C15"),
+ "C16": ("fault_enumeration",
+         "exhaustive enumeration of every truncation offset / extension length of npy files and every single-token / single-axis edit of text files, on the real reader and binary",
+         "For 29 valid npy files (numpy layout in 6 dtypes and 3 versions, and sfs-written; 16 shapes incl. 1-cell and 0-cell arrays) every strict prefix and every extension by 1..16 bytes must make Array::read_npy return Err; through the binary every such damage of selected files (thorough: all) must make view, fold and stat exit non-zero with a diagnostic and empty stdout (a panic counts as a violation). Text: every deletion of one value token, every insertion at every position, every single-axis header edit: rejected iff the token count differs from the product of the declared shape; consistent edits are counted, not ignored.",
+         TRUST + "Multi-fault damage (e.g. truncation plus a header edit) is outside the bound.", "3 C16"),
+ "C18": ("fault_enumeration",
+         "deviation-bounded exhaustive exploration of chunk schedules and fault offsets on the real readers/writers behind owned I/O seams",
+         "Read side: the real format detection + reader construction (hook verif_build_from_reader) and Array::read_npy over a chunk-scheduled BufRead: 0 cuts, every single cut offset (a first chunk of any length), every pair of cuts (thorough; quick: pairs with the first cut in the first 8 bytes), periodic 1/2/3/7/64-byte chunks, for a call set as vcf, vcf.gz, bcf, raw bcf in two BGZF layouts with 1-2(4) threads and three npy files; the result must equal the one-chunk result. A read error injected at every byte offset (alone, after a cut, under periodic schedules) must surface as Err whenever it was delivered. Write side: 8 spectra x {text p=0,6,17; npy} through writers accepting 1/2/3/7 bytes per call (identical bytes) and failing or returning Ok(0) at every offset (must be Err). Real OS pipes with a delayed second write confirm end to end.",
+         TRUST + "Schedules with more than two deviations are covered only by the periodic schedules. The pipe runs depend on OS timing and never decide alone.", "3 C18"),
  "C19": ("model_checking",
          "explicit-state exploration of iterator call histories + exhaustive index-box enumeration on the real Array API",
          "Every shape with 1..5 axes and lengths 1..5 (thorough: 6 axes, and lengths up to 8 at <=4 axes): every index of the box "
